@@ -129,6 +129,47 @@ theorem chosen_nodup (bat : List Nat) (k : Nat) : (chosen bat k).Nodup := by
 theorem chosen_never_reserved (bat : List Nat) (k : Nat) : ∀ b ∈ chosen bat k, isReserved (bat.getD b 0) = false :=
   fun b hb => free_not_reserved _ (chosen_free bat k b hb).2
 
+/-- a table that does not show the blocks of track 20 as free is left as it is -/
+theorem protect_id (bat : List Nat) (h40 : isFree (bat.getD 40 0) = false) (h41 : isFree (bat.getD 41 0) = false) : protect bat = bat := by
+  unfold protect
+  simp only [h40, h41, Bool.false_eq_true, if_false]
+
+theorem free_reserved_false : isFree Gen.Disk.bsReserved = false := by decide
+
+/-- **whatever the table says, the blocks of track 20 are never chosen for a file** -/
+theorem protect_track20 (bat : List Nat) (hlen : 41 < bat.length) :
+    isFree ((protect bat).getD 40 0) = false ∧ isFree ((protect bat).getD 41 0) = false := by
+  unfold protect
+  by_cases h40 : isFree (bat.getD 40 0) = true
+  · by_cases h41 : isFree (bat.getD 41 0) = true
+    · have e1 : (bat.set 40 Gen.Disk.bsReserved).getD 41 0 = bat.getD 41 0 := by
+        rw [List.getD_eq_getElem?_getD, List.getD_eq_getElem?_getD, List.getElem?_set_ne (by omega)]
+      simp only [h40, if_true, e1, h41]
+      constructor
+      · rw [List.getD_eq_getElem?_getD, List.getElem?_set_ne (by omega), List.getElem?_set_self (by omega)]
+        exact free_reserved_false
+      · rw [List.getD_eq_getElem?_getD, List.getElem?_set_self (by simp; omega)]
+        exact free_reserved_false
+    · have h41' : isFree (bat.getD 41 0) = false := by simpa using h41
+      have e1 : (bat.set 40 Gen.Disk.bsReserved).getD 41 0 = bat.getD 41 0 := by
+        rw [List.getD_eq_getElem?_getD, List.getD_eq_getElem?_getD, List.getElem?_set_ne (by omega)]
+      simp only [h40, if_true, e1, h41', Bool.false_eq_true, if_false]
+      refine ⟨?_, trivial⟩
+      rw [List.getD_eq_getElem?_getD, List.getElem?_set_self (by omega)]
+      exact free_reserved_false
+  · have h40' : isFree (bat.getD 40 0) = false := by simpa using h40
+    simp only [h40', Bool.false_eq_true, if_false]
+    by_cases h41 : isFree (bat.getD 41 0) = true
+    · simp only [h41, if_true]
+      constructor
+      · rw [List.getD_eq_getElem?_getD, List.getElem?_set_ne (by omega)]
+        rw [← List.getD_eq_getElem?_getD]; exact h40'
+      · rw [List.getD_eq_getElem?_getD, List.getElem?_set_self (by omega)]
+        exact free_reserved_false
+    · have h41' : isFree (bat.getD 41 0) = false := by simpa using h41
+      simp only [h41', Bool.false_eq_true, if_false]
+      exact ⟨h40', trivial⟩
+
 /-- the block count the injector announces, in closed form -/
 theorem reqBlocks_formula (n : Nat) : reqBlocks n = (max 1 ((n + 254) / 255) + 7) / 8 := by
   obtain ⟨h1, h2, h3, h4, h5, h6, h7⟩ := size_law n
